@@ -27,8 +27,34 @@ def std_cfgs():
     }
 
 
+def mixed_cfgs():
+    """v3 users whose authentication and privacy keys are given in different forms (password / master / localized):
+    each key must be expanded according to its own key type, at construction and in set_keys() alike"""
+    e = ag.Agent().engine
+    return {
+        "v3-md5-des-pw+master": rawdrv.Cfg("v3", user="mix1", engine=e, auth="md5", akt="password", akm=b"authpass31",
+                                           priv="des", pkt="master", pkm=bytes(range(40, 56))),
+        "v3-sha1-aes-master+pw": rawdrv.Cfg("v3", user="mix2", engine=e, auth="sha1", akt="master", akm=bytes(range(60, 80)),
+                                            priv="aes", pkt="password", pkm=b"privpass32"),
+        "v3-md5-aes-pw+localized": rawdrv.Cfg("v3", user="mix3", engine=e, auth="md5", akt="password", akm=b"authpass33",
+                                              priv="aes", pkt="localized", pkm=bytes(range(90, 106))),
+        "v3-sha1-des-localized+pw": rawdrv.Cfg("v3", user="mix4", engine=e, auth="sha1", akt="localized", akm=bytes(range(110, 130)),
+                                               priv="des", pkt="password", pkm=b"privpass34"),
+        "v3-sha1-aes-master+localized": rawdrv.Cfg("v3", user="mix5", engine=e, auth="sha1", akt="master", akm=bytes(range(7, 27)),
+                                                   priv="aes", pkt="localized", pkm=bytes(range(130, 150))),
+        "v3-md5-des-localized+master": rawdrv.Cfg("v3", user="mix6", engine=e, auth="md5", akt="localized", akm=bytes(range(3, 19)),
+                                                  priv="des", pkt="master", pkm=bytes(range(150, 166))),
+    }
+
+
+def all_cfgs():
+    d = std_cfgs()
+    d.update(mixed_cfgs())
+    return d
+
+
 def model_consts(cfgname):
-    c = std_cfgs()[cfgname]
+    c = all_cfgs()[cfgname]
     return dict(Ver=c.ver, HasAuth=c.auth != "none", HasPriv=c.priv != "none")
 
 
